@@ -458,6 +458,8 @@ declspecs(struct scope *s, enum storageclass *sc, enum funcspec *fs, int *align)
 			next();
 			expect(TLPAREN, "after 'alignas'");
 			other = typename(s, NULL, NULL);
+			if (other && (other->incomplete || other->kind == TYPEFUNC))
+				error(&tok.loc, "alignment specifier applied to %s type", other->kind == TYPEFUNC ? "function" : "incomplete");
 			i = other ? other->align : intconstexpr(s, false);
 			if (i & i - 1 || i > INT_MAX)
 				error(&tok.loc, "invalid alignment: %llu", i);
